@@ -55,7 +55,8 @@ func (check) Rule() string {
 
 func (check) Assumptions() []string {
 	return []string{
-		"the path an error names is read from the message: the quoted text after \"accessing '\" or \"in field '\" (not \"for key: '\" of a cyclic reference error: that names the reference closing the cycle); it must equal the dotted path (keys and list indices) at which the generator put the fault; the source must appear as (source:'...')",
+		"wording independent judgement of the message (Message() of the typed error): the setting is named iff its full dotted path (keys and list indices, at which the generator put the fault) occurs as a delimited token (the characters before and behind are not letters, digits, '_', '.', '-'; a sentence's full stop delimits); if it does not occur but the path of another setting or container of the tree does (longest first; a proper prefix of the path counts) the error names a different setting, else it names none; the source must occur as a delimited token anywhere. A key quoted in a cyclic reference clause counts only if it is the faulty setting's own full path (falls out of the token rule)",
+		"generated keys are distinctive tokens (ka, hst, cfg_1, with-dash, q r, k1, ...) that do not occur in the prose of messages, in type names or in the texts of the hand-written Validate/Unpack methods",
 		"merge chains give every operand its own source src-<case>-op<k>: the exact operand is demanded when the faulty value is a primitive delivered by one operand; when the error is raised on behalf of the holder (required/missing/empty, array length, references, containers in place of primitives) any source of the chain is accepted",
 		"single fault only: all other settings conform to the type, so which of several guilty settings is named cannot arise; keys never contain '.', quotes or '$', and are never numeric",
 		"target types never put pointers inside slices or maps, never point to maps, slices or arrays, use arrays only as struct fields and *regexp.Regexp only as a struct field (other shapes are C06/C07 findings)",
@@ -383,6 +384,38 @@ func (cs *caseState) observe(rt route, T *model.Node, pos *position, f fault, ba
 	}
 
 	// report classifies one deviation
+	// every path of the tree (settings and containers), for telling "names a
+	// different setting" from "names no setting"
+	var others []string
+	seenPath := map[string]bool{}
+	var walk func(n *model.Node, p []seg)
+	walk = func(n *model.Node, p []seg) {
+		if len(p) > 0 && !seenPath[pathStr(p)] {
+			seenPath[pathStr(p)] = true
+			others = append(others, pathStr(p))
+		}
+		if n == nil || n.Kind != model.KSub {
+			return
+		}
+		for _, k := range n.SortedKeys() {
+			walk(n.D[k], appendSeg(p, seg{key: k}))
+		}
+		for i, c := range n.A {
+			walk(c, appendSeg(p, seg{idx: i, isIdx: true}))
+		}
+	}
+	walk(T, nil)
+	walk(cs.V, nil)
+	dropped := ""
+	if f.wantRel != "" {
+		// the path with the key of the absent struct left out
+		dropped = strings.TrimPrefix(pathStr(pos.path[:len(pos.path)-1])+"."+f.wantRel, ".")
+		others = append(others, dropped)
+	}
+	sources := []string{cs.base}
+	for k := 0; k < 4; k++ {
+		sources = append(sources, fmt.Sprintf("%s-op%d", cs.base, k))
+	}
 	report := func(problem, shape, entry, msg string, named []string) {
 		key := entry + "|" + problem
 		seen[key] = true
@@ -393,18 +426,18 @@ func (cs *caseState) observe(rt route, T *model.Node, pos *position, f fault, ba
 			sig = problem + ":" + f.kind + ":" + strings.TrimSuffix(strings.TrimSuffix(shape, "+from-child"), "+inline")
 		}
 		if problem == "error-names-wrong-path" && pos.ifaceRoot != nil && len(pos.path) > len(pos.ifaceRoot) && (entry == "Unpack" || entry == "Child.Unpack") &&
-			contains(named, pathStr(pos.ifaceRoot)) {
+			hasToken(msg, pathStr(pos.ifaceRoot), false) {
 			// the enclosing interface{} slot is named instead of the leaf inside
 			sig = problem + ":" + f.kind + ":interface-target"
 		}
-		if problem == "error-names-wrong-path" && f.wantRel != "" && contains(named, strings.TrimPrefix(pathStr(pos.path[:len(pos.path)-1])+"."+f.wantRel, ".")) {
+		if problem == "error-names-wrong-path" && dropped != "" && hasToken(msg, dropped, false) {
 			// the key of the absent struct itself is left out of the path
 			sig = problem + ":" + f.kind + ":drops-struct-key"
 		}
 		if baseline != nil && !baseline[key] {
 			sig += ":only-via-" + rt.name
 		}
-		res.Violate(sig, "%s: %s: message %q names %q, expected '%s' and source %s; %s", entry, problem, clip(msg, 500), named, want, cs.base, ctx())
+		res.Violate(sig, "%s: %s: message %q names other settings %q, expected '%s' and source %s; %s", entry, problem, clip(msg, 500), named, want, cs.base, ctx())
 	}
 	judge := func(entry, shape string, err error) {
 		if err == nil {
@@ -420,7 +453,7 @@ func (cs *caseState) observe(rt route, T *model.Node, pos *position, f fault, ba
 			seen[entry+"|"+p] = true
 		}
 		msg := errText(err)
-		v := judgeMessage(msg, want, f.lenient, cs.base, exact)
+		v := judgeMessage(msg, want, f.lenient, others, sources, exact)
 		for _, p := range v.problems {
 			if (f.lenient || f.noSource) && p == "error-lacks-source" {
 				res.Ev("source_not_demanded_and_absent", 1)
@@ -521,13 +554,4 @@ func (cs *caseState) observe(rt route, T *model.Node, pos *position, f fault, ba
 		}
 	}
 	return seen
-}
-
-func contains(l []string, s string) bool {
-	for _, x := range l {
-		if x == s {
-			return true
-		}
-	}
-	return false
 }
